@@ -98,6 +98,9 @@ def main():
     # checked before it, and jit re-orders keyword arguments (known finding F-C17-union-kwargs-order)
     cases.append({"kind": "kwargs", "dim": "n | n+1", "dims": ["n", "n+1"], "kw": [["b", [3]], ["a", [4]]], "checker": "typeguard"})
     cases += [gen_kw(R.rng) for _ in range(600 if R.thorough else 16)]
+    for chk in ("typeguard", "beartype"):
+        for extra in (4, 3):
+            cases.append({"kind": "mutated_node", "extra": extra, "checker": chk})
     for first in ("jit", "eval_shape", "grad", "vmap_all"):
         for chk in ("typeguard", "beartype"):
             cases.append({"kind": "pytree_first_traced", "dim": "n", "leaf": [3], "x": [3], "first": first, "checker": chk})
@@ -114,11 +117,13 @@ def main():
     duck = outs[0]["duck_log"]
     nev, nontriv, samples = 0, set(), []
     for c, r in zip(cases, res):
+        if c.get("kind") == "mutated_node":
+            c.setdefault("params", []); c.setdefault("ret", None); c.setdefault("shapes", {"layers": [[3], [3], [c["extra"]]], "x": [3]}); c.setdefault("kw", []); c.setdefault("dim", "n"); c.setdefault("first", "-"); c.setdefault("leaf", [3]); c.setdefault("x", [3])
         if c.get("kind") == "pytree_first_traced":
             c.setdefault("params", []); c.setdefault("ret", None); c.setdefault("shapes", {"leaves": c["leaf"], "x": c["x"]}); c.setdefault("kw", []); c.setdefault("dim", c["dim"])
         if c.get("kind") in ("kwargs", "dictarg"):
             c.setdefault("params", []); c.setdefault("ret", None); c.setdefault("shapes", dict((k, sh) for k, sh in c["kw"]))
-        desc = ("" if not c.get("kind") else ("f(t: PyTree[Float[Array,%r]], x: Float[Array,%r]) -> same, first ever call under " + c["first"] + " inside jax.checking_leaks(); ") % (c["dim"], c["dim"]) if c["kind"] == "pytree_first_traced" else ("f(**terms: Float[Array,%r])" if c["kind"] == "kwargs" else "f(terms: dict[str, Float[Array,%r]])") % c["dim"] + " called with keys in the order %s; " % [k for k, _ in c["kw"]]) + "f(%s)%s shapes %s" % (", ".join("%s: %s" % (p[0], "Int[Array,''] = %s" % p[2] if p[1] == "int0d" else "%s[Array,%r] %s" % (p[3], p[1], p[2])) for p in c["params"]), " -> Float[Array,%r]" % c["ret"] if c["ret"] else "", c["shapes"])
+        desc = ("f(model: PyTree[Float[Array,'n']], x: Float[Array,'n']) with a registered mutable node checked once, then extended IN PLACE by a leaf of length %d and passed again; " % c["extra"] if c.get("kind") == "mutated_node" else "") + ("" if not c.get("kind") or c.get("kind") == "mutated_node" else ("f(t: PyTree[Float[Array,%r]], x: Float[Array,%r]) -> same, first ever call under " + c["first"] + " inside jax.checking_leaks(); ") % (c["dim"], c["dim"]) if c["kind"] == "pytree_first_traced" else ("f(**terms: Float[Array,%r])" if c["kind"] == "kwargs" else "f(terms: dict[str, Float[Array,%r]])") % c["dim"] + " called with keys in the order %s; " % [k for k, _ in c["kw"]]) + "f(%s)%s shapes %s" % (", ".join("%s: %s" % (p[0], "Int[Array,''] = %s" % p[2] if p[1] == "int0d" else "%s[Array,%r] %s" % (p[3], p[1], p[2])) for p in c["params"]), " -> Float[Array,%r]" % c["ret"] if c["ret"] else "", c["shapes"])
         if "decorate" in r:
             R.violation("correspondence", "could not decorate: %s (%s)" % (r["decorate"], desc), {"case": c}, key={"kind": "decorate"}, no_input=True); continue
         e = r["eager"]
